@@ -41,7 +41,7 @@ fn src_col() -> impl Strategy<Value = ColCfg> {
 }
 
 pub fn mig_case() -> impl Strategy<Value = MigCase> {
-	(proptest::collection::vec(src_col(), 1..=4), any::<bool>(), prop_oneof![2 => Just(0x4242u16), 2 => Just(0xffffu16), 1 => Just(0u16), 1 => any::<u16>()]).prop_flat_map(|(mut cols, crafted, page)| {
+	(proptest::collection::vec(src_col(), 1..=4), any::<bool>(), prop_oneof![2 => Just(0x4242u16), 2 => Just(0xffffu16), 1 => Just(0u16), 1 => any::<u16>()], 0u8..4).prop_flat_map(|(mut cols, crafted, page, bits)| {
 		if crafted {
 			// one uniform column with the identity hash and keys that overflow a 16-bit page
 			for c in cols.iter_mut() {
@@ -54,7 +54,7 @@ pub fn mig_case() -> impl Strategy<Value = MigCase> {
 			}
 		}
 		let zero_salt = cols.iter().any(|c| matches!(c.keyset, KeySet::Crafted { .. }));
-		let cfg = DbCfg { cols, zero_salt, sync_wal: true, sync_data: true, always_flush: false };
+		let cfg = DbCfg { cols, zero_salt, sync_wal: true, sync_data: true, always_flush: false, salt_from_meta: false, stats: false }.flags(bits);
 		let n = cfg.cols.len();
 		// commits with the pipeline drained now and then, so that removals also hit entries that
 		// already live in their final index page (holes inside a page)
@@ -254,7 +254,7 @@ pub fn known_pending_growth_case() -> MigCase {
 	let mut c = ColCfg::hash();
 	c.uniform = true;
 	c.keyset = KeySet::Crafted { page: 0x4242 };
-	let cfg = DbCfg { cols: vec![c], zero_salt: true, sync_wal: true, sync_data: true, always_flush: false };
+	let cfg = DbCfg { cols: vec![c], zero_salt: true, sync_wal: true, sync_data: true, always_flush: false, salt_from_meta: false, stats: false };
 	let ids: Vec<u16> = (0..40u16).chain(256..292u16).collect();
 	let ops = vec![
 		Op::Commit(ids.iter().map(|id| Item { col: 0, ch: Change::Set(*id, VSpec { len: 20 + (*id as u32 % 7), fill: 2, seed: *id }) }).collect()),
